@@ -55,12 +55,17 @@ def run(ctx, mod, a):
     theorems, audit_problems = {}, []
     checker = "lake build D3.Audit.%s && lake env lean D3/Audit/%s.lean  (#print axioms)" % (prop, prop)
     gen_info = {}
+    driver_ok = True
     if not a.no_lean:
         with core.LeanLock():
             gen = core.regenerate()
             gen_info = {k: bool(v[0]) for k, v in gen.items()}
-            targets = ["D3.Audit." + prop, "D3.Driver." + prop] + list(getattr(mod, "LEAN_TARGETS", []))
-            ok, log = core.lake_build(targets)
+            ok_drv, log_drv = core.lake_build(["D3.Driver." + prop] + list(getattr(mod, "LEAN_TARGETS", [])))
+            if not ok_drv:
+                errs = core.build_errors(log_drv)
+                ctx.broke("theorem", (errs[0]["file"] if errs else "lake build driver"), errs[:5] or log_drv[-1500:])
+            driver_ok = ok_drv
+            ok, log = core.lake_build(["D3.Audit." + prop])
             if not ok:
                 errs = core.build_errors(log)
                 name = errs[0]["file"] if errs else "lake build"
@@ -75,16 +80,21 @@ def run(ctx, mod, a):
                     ctx.extra["leanchecker"] = "ok" if okc else logc[-400:]
                     if not okc:
                         ctx.broke("theorem", "leanchecker", logc[-800:])
-    model_usable = not any(b["kind"] == "theorem" and b["name"] != "audit" and
-                           "leanchecker" not in b["name"] for b in ctx.broken)
+    model_usable = driver_ok
 
     # 4. correspondence (needs the driver, i.e. a model that builds)
     if model_usable or a.no_lean:
         mod.correspondence(ctx)
     else:
         ctx.notes.append("model does not build: correspondence skipped, search only")
-    # 5. property oracle on the real code (always run; deeper when something broke)
-    ctx.extra["search_boost"] = bool(ctx.broken)
+    # source fingerprints of the modelled functions: a changed function multiplies the search budget
+    changed, unsnapped = core.changed_sources(ctx.prop, getattr(mod, "MODELLED", []))
+    ctx.extra["modelled_functions"] = len(getattr(mod, "MODELLED", []))
+    ctx.extra["modelled_functions_changed_since_snapshot"] = changed
+    if unsnapped:
+        ctx.extra["modelled_functions_without_snapshot"] = unsnapped
+    # 5. property oracle on the real code (always run; deeper when something broke or a modelled function changed)
+    ctx.extra["search_boost"] = bool(ctx.broken) or bool(changed)
     mod.search(ctx)
 
     # ---- verdict
